@@ -60,6 +60,7 @@ def check(run):
         run.guard("C02.1.leaves", cfg, lambda: rule_leaves(run, F, cfg))
         run.guard("C02.2.flag-names", cfg, lambda: rule_flags(run, F, cfg))
         run.guard("C02.3.regex-translation", cfg, lambda: rule_translation(run, F, cfg))
+        run.guard("C02.4.label-boundary", cfg, lambda: rule_label_boundary(run, F, cfg))
         run.guard("C05.4.disjunction", cfg, lambda: C05.rule_disjunction(run, F, cfg))
 
 
@@ -245,3 +246,81 @@ def rule_translation(run, F, cfg):
     okc = any("Range{start: 1" in cr.expr_operand(t["args"][1]) and has_cond(dominating_conditions(cr, b), r"^arg:is_complete_regex$", 1) for b, t in gets)
     run.ob("C02.3.regex-translation", "complete-regex-strips-slashes", okc,
            "for /re/ rules the text between the first and last character is compiled as the regex", config=cfg)
+
+
+def rule_label_boundary(run, F, cfg):
+    """is_anchored_by_hostname: decision table of the `||host` anchoring test, by path enumeration.
+    A path may return something other than `false` only if
+      * the filter hostname is empty, or the two have equal length and the result is their equality, or
+      * memmem::find located the filter hostname in the request hostname AND the label boundaries hold:
+          match at 0      -> wildcard hostname, or filter ends with '.', or hostname[flen..] starts with '.'
+          match at suffix -> filter starts with '.', or hostname[idx-1..] starts with '.'
+          infix           -> both of the above groups."""
+    f = F.fn(NM + "is_anchored_by_hostname")
+    run.touched(f)
+    n = 0
+    bad = []
+    for p in enumerate_paths(f):
+        if p.end != "return":
+            continue
+        val = path_value(f, p, 0) or "?"
+        if val == "false":
+            continue
+        n += 1
+        facts = {}
+        for e, v in p.conds:
+            facts[e] = v
+        ret = val
+
+        def holds(rx):
+            return any(re.search(rx, e) and v == 1 for e, v in facts.items()) or (ret != "true" and re.search(rx, ret) is not None)
+
+        if facts.get("(core::str::len(arg:filter_hostname) Eq 0)") == 1:
+            if ret != "true":
+                bad.append(("empty filter hostname must match", ret))
+            continue
+        if facts.get("(core::str::len(arg:filter_hostname) Eq core::str::len(arg:hostname))") == 1:
+            if not re.search(r"::eq\(arg:filter_hostname, arg:hostname\)$", ret):
+                bad.append(("equal lengths must compare the two hostnames", ret))
+            continue
+        found = [v for e, v in facts.items() if re.match(r"^discr\(memchr::memmem::find\(arg:hostname, arg:filter_hostname\)\)$", e)]
+        if found != [1]:
+            bad.append(("true without locating the filter hostname in the request hostname", ret))
+            continue
+        at0 = [v for e, v in facts.items() if re.search(r"find\(arg:hostname, arg:filter_hostname\)@Some\.0 Eq 0\)$", e)]
+        atsuf = [v for e, v in facts.items() if re.search(r"@Some\.0 Eq \(core::str::len\(arg:hostname\) SubWithOverflow core::str::len\(arg:filter_hostname\)\)\.0\)$", e)]
+        right_ok = holds(r"^arg:wildcard_filter_hostname$") or holds(r"ends_with\(arg:filter_hostname, '\.'\)$") or \
+            holds(r"starts_with\(core::str::traits::index\(.*\), '\.'\)$") and _slice_kind(f, p, "after")
+        left_ok = holds(r"starts_with\(arg:filter_hostname, '\.'\)$") or \
+            holds(r"starts_with\(core::str::traits::index\(.*\), '\.'\)$") and _slice_kind(f, p, "before")
+        if at0 == [1]:
+            if not right_ok:
+                bad.append(("prefix match without a label boundary after the filter hostname", ret))
+        elif atsuf == [1]:
+            if not left_ok:
+                bad.append(("suffix match without a label boundary before the filter hostname", ret))
+        else:
+            if not (right_ok and left_ok):
+                bad.append(("infix match without label boundaries on both sides", ret))
+    run.floor("C02.4.label-boundary", f"non-false return paths of is_anchored_by_hostname [{cfg}]", n, 8)
+    run.ob("C02.4.label-boundary", "table", not bad,
+           f"`||host` anchoring accepts only matches of the filter hostname at label boundaries of the request "
+           f"hostname ({n} accepting paths examined); offending: {bad[:3]}", site=f.loc(0), config=cfg,
+           detail="prefix: wildcard | filter ends with '.' | hostname[flen..] starts with '.'; suffix: filter starts "
+                  "with '.' | hostname[idx-1..] starts with '.'; infix: both")
+
+
+def _slice_kind(f, p, which):
+    """does the path evaluate starts_with('.') on hostname[flen..] (`after`) or hostname[idx-1..] (`before`)?"""
+    for b in p.blocks:
+        t = f.blocks[b]["t"]
+        if t["k"] == "call" and strip_generics(t["callee"]).endswith("traits::index"):
+            rng = f.expr_operand(t["args"][1])
+            base = f.expr_operand(t["args"][0])
+            if base != "arg:hostname":
+                continue
+            if which == "after" and rng == "std::ops::RangeFrom::RangeFrom{start: core::str::len(arg:filter_hostname)}":
+                return True
+            if which == "before" and re.search(r"RangeFrom\{start: \(memchr::memmem::find\(arg:hostname, arg:filter_hostname\)@Some\.0 SubWithOverflow 1\)\.0\}$", rng):
+                return True
+    return False
